@@ -12,14 +12,14 @@ import (
 
 // SpecEnv evaluates contract expressions to SMT terms.
 type SpecEnv struct {
-	f      *Frame
-	names  map[string]Term
-	types  map[string]types.Type
-	bound  map[string]Sort // quantified variables
-	cur    *State
-	old    *State
-	lookup func(name string) (Term, types.Type, bool) // program-point resolver
-	pkg    *types.Package
+	f        *Frame
+	names    map[string]Term
+	types    map[string]types.Type
+	bound    map[string]Sort // quantified variables
+	cur      *State
+	old      *State
+	lookup   func(name string) (Term, types.Type, bool) // program-point resolver
+	pkg      *types.Package
 	rangePos func() (Term, bool)
 	retInstr *ssa.Return // the return statement a postcondition is evaluated at
 }
